@@ -35,6 +35,33 @@ type mwDeployConf struct {
 	CookieName string `json:"cookie_name,omitempty"`
 	CustomRS   bool   `json:"custom_relay_state,omitempty"`
 	AllowIDP   bool   `json:"allow_idp_initiated,omitempty"`
+	// further samlsp.Options the statements do not mention: none of them may change who is authenticated or where a flow ends,
+	// except DefaultRedirect, which is where a flow without relay state ends
+	DefaultRedirect string `json:"default_redirect_uri,omitempty"`
+	SignRequest     bool   `json:"sign_request,omitempty"`
+	ForceAuthn      bool   `json:"force_authn,omitempty"`
+	SameSite        int    `json:"cookie_same_site,omitempty"` // http.SameSite value (0: unset)
+	EntityID        string `json:"entity_id,omitempty"`
+	ReqCtx          bool   `json:"requested_authn_context,omitempty"`
+}
+
+func (c mwDeployConf) defaultRedirect() string {
+	if c.DefaultRedirect != "" {
+		return c.DefaultRedirect
+	}
+	return "/"
+}
+
+// mwNoise draws the options above.
+func mwNoise(g *Rng, c *mwDeployConf) {
+	c.DefaultRedirect = Pick(g, "", "", "/landing", "/app/home?tab=1")
+	c.SignRequest = g.Bool(0.3)
+	c.ForceAuthn = g.Bool(0.2)
+	c.SameSite = Pick(g, 0, 0, int(http.SameSiteLaxMode), int(http.SameSiteStrictMode), int(http.SameSiteNoneMode))
+	c.ReqCtx = g.Bool(0.2)
+	if g.Bool(0.25) {
+		c.EntityID = "urn:example:sp:" + c.Host
+	}
 }
 
 type appHit struct {
@@ -57,8 +84,13 @@ type mwDeploy struct {
 	record  func(dst *[]appHit) http.Handler
 }
 
-func (d *mwDeploy) acs() string      { return d.base + "/saml/acs" }
-func (d *mwDeploy) entityID() string { return d.base + "/saml/metadata" }
+func (d *mwDeploy) acs() string { return d.base + "/saml/acs" }
+func (d *mwDeploy) entityID() string {
+	if d.conf.EntityID != "" {
+		return d.conf.EntityID
+	}
+	return d.base + "/saml/metadata"
+}
 func (d *mwDeploy) sessionCookieName() string {
 	if d.conf.CookieName != "" {
 		return d.conf.CookieName
@@ -79,7 +111,11 @@ func newMWDeploy(c mwDeployConf, idpMD *saml.EntityDescriptor, gateAttr, gateVal
 		d.kp = rsaKeys[c.KeyIdx%len(rsaKeys)]
 	}
 	opts := samlsp.Options{URL: mustURL(d.base + "/"), Key: d.kp.Key, Certificate: d.kp.Cert, IDPMetadata: idpMD,
-		CookieName: c.CookieName, AllowIDPInitiated: c.AllowIDP}
+		CookieName: c.CookieName, AllowIDPInitiated: c.AllowIDP, DefaultRedirectURI: c.DefaultRedirect, SignRequest: c.SignRequest, ForceAuthn: c.ForceAuthn,
+		CookieSameSite: http.SameSite(c.SameSite), EntityID: c.EntityID}
+	if c.ReqCtx {
+		opts.RequestedAuthnContext = &saml.RequestedAuthnContext{Comparison: "exact", AuthnContextClassRef: "urn:oasis:names:tc:SAML:2.0:ac:classes:PasswordProtectedTransport"}
+	}
 	if c.CustomRS {
 		opts.RelayStateFunc = func(http.ResponseWriter, *http.Request) string {
 			d.rsCount++
